@@ -121,6 +121,10 @@ def run(ck, F):
     import c11
     c11.merge_rule_for(ck, F, 'C01')
     K.finish_partial(())
+    # `a request that spells out the natural transfer is the request that omits it`: the guards that recognise the natural transfer
+    # compare Transfer values, so that equality must hold exactly for transfers spelled alike (however each was obtained)
+    import eqrule as _eqrule
+    _eqrule.check_equalities(ck, F, 'C01')
     import c05 as _c05
     _c05.const_handles(ck, F, 'C01', only=None)
     # the tables the types are unified in find what they hold only as long as they stay valid search trees: an entry cut off by a wrong rotation is
